@@ -142,6 +142,14 @@ impl SimReader {
   pub fn inject(&mut self, bytes: &[u8]) {
     self.mr.handle_received_packet(&Bytes::copy_from_slice(bytes));
   }
+  /// Discovery announces writer `w` again with unchanged data (what `dp_event_loop` does on every
+  /// SPDP refresh for the built-in readers and on repeated SEDP data for user readers).
+  pub fn reannounce(&mut self, w: u8) {
+    let q = qos(self.cfg.reliable, self.cfg.history, false);
+    if let Some(r) = self.mr.available_readers.get_mut(&self.reader_eid) {
+      r.update_writer_proxy(RtpsWriterProxy::new(wguid(w), vec![loc(wport(w))], vec![], EntityId::UNKNOWN), &q);
+    }
+  }
   pub fn guid(&self) -> GUID {
     self.reader_guid
   }
